@@ -106,6 +106,15 @@ def denote(e, data, t, lib):
         if took is not None:
             return x if took else y
         return SFloat(z3.If(ct, V.to_float_term(x), V.to_float_term(y)))
+    if isinstance(e, G.Verb):
+        # a fragment that is a numeric literal denotes that number; any other fragment is arbitrary Python (bounded layer only)
+        import ast as _ast
+        try:
+            v = _ast.literal_eval(e.text)
+        except (ValueError, SyntaxError):
+            v = None
+        if isinstance(v, (int, float)) and not isinstance(v, bool):
+            return v
     raise OutOfSubset(f'tree node {type(e).__name__} has no symbolic denotation')
 
 
@@ -255,6 +264,9 @@ class ProgramsContract:
 
     def _check_equation_text(self, ctx, interp, text, q, data0, n, t, names, rdata_before):
         """`NAME[t+k] = expr` with every NAME[...] read as a cell of the (entry) store; exp/log/max/min bare names."""
+        import re as _re
+        # a partial verbatim fragment keeps its backticks in the equation text: it denotes the code between them
+        text = _re.sub(r'`(.+?)`', r'\1', text)
         try:
             mod = ast.parse(text)
         except SyntaxError:
